@@ -2,8 +2,8 @@ package main
 
 import (
 	"fmt"
-	"os"
 	"go/types"
+	"os"
 	"sort"
 	"strings"
 	"sync"
@@ -13,39 +13,39 @@ import (
 )
 
 type ObResult struct {
-	Name     string   `json:"name"`
-	Kind     string   `json:"kind"`
-	Func     string   `json:"func"`
-	Mode     string   `json:"mode"`
-	Paths    int      `json:"paths"`
-	Status   string   `json:"status"` // discharged | failed | undecided
-	Solver   string   `json:"solver"`
-	TimeS    float64  `json:"time_s"`
-	MaxS     float64  `json:"max_query_s"`
-	Src      string   `json:"clause,omitempty"`
-	Model    string   `json:"-"`
-	FailPath string   `json:"fail_path,omitempty"`
-	Raw      string   `json:"-"`
-	Query    string   `json:"-"`
-	Ctx      *FnCtx   `json:"-"`
+	Name     string  `json:"name"`
+	Kind     string  `json:"kind"`
+	Func     string  `json:"func"`
+	Mode     string  `json:"mode"`
+	Paths    int     `json:"paths"`
+	Status   string  `json:"status"` // discharged | failed | undecided
+	Solver   string  `json:"solver"`
+	TimeS    float64 `json:"time_s"`
+	MaxS     float64 `json:"max_query_s"`
+	Src      string  `json:"clause,omitempty"`
+	Model    string  `json:"-"`
+	FailPath string  `json:"fail_path,omitempty"`
+	Raw      string  `json:"-"`
+	Query    string  `json:"-"`
+	Ctx      *FnCtx  `json:"-"`
 	anyOK    bool
 	Props    []string `json:"props,omitempty"`
 	SmtBytes int      `json:"smt_bytes"`
 }
 
 type FuncReport struct {
-	Func      string
-	Mode      string
-	Paths     int
-	Instrs    int
-	Obs       []*Obligation
-	Notes     []string
-	Inlined   []string
-	Trusted   []string
-	Defaults  []string
-	Aborted   string
-	Unverified []string // Helios callees used through a contract that no check verifies
-	Vacuity   []*Obligation
+	Func        string
+	Mode        string
+	Paths       int
+	Instrs      int
+	Obs         []*Obligation
+	Notes       []string
+	Inlined     []string
+	Trusted     []string
+	Defaults    []string
+	Aborted     string
+	Unverified  []string // Helios callees used through a contract that no check verifies
+	Vacuity     []*Obligation
 	HasContract bool
 }
 
@@ -525,8 +525,8 @@ func buildQuery(ob *Obligation) string {
 // Discharge runs all obligations; obligations with the same name are aggregated.
 func Discharge(obs []*Obligation, opt runOpts) []*ObResult {
 	type job struct {
-		ob  *Obligation
-		res SolveResult
+		ob   *Obligation
+		res  SolveResult
 		all  []SolveResult
 		q    string
 		qlen int
